@@ -30,6 +30,8 @@ inductive Ev where
   | closeAbort                     -- a close() call that its caller cancelled (e.g. wait_for): it did not return, nothing is promised about it
   | closeCallInRecv                -- close() called from inside the receive task (from the status callback it runs)
   | closeCallInReconn              -- close() called from inside the reconnect task (from the status callback that its connect() runs)
+  | connCancel                     -- the connect() call that holds the lock is cancelled by its caller (e.g. wait_for): it ends wherever it is
+  | abandon (c : Nat)              -- connect() finds the client CONNECTED on link c with no receive task (an earlier connect() was cancelled by its caller): the link is given up
   | connCallInRecv                 -- connect() called from inside the receive task: returns at once, that task reconnects by itself
   | reconnStart | reconnEnd        -- life cycle of the reconnect task that a fault report schedules
   | reconnSleep (ms : Nat)         -- its own wait before it calls connect()
@@ -61,6 +63,7 @@ structure CS where
   reconn : Nat := 0                -- reconnect tasks alive
   reconnSlept : Bool := false      -- the live one has waited
   reconnCalled : Bool := false     -- … and has made its connect() call
+  abandoning : Bool := false       -- the running connect() has just given up a link nobody was reading: its first attempt follows
   closeFromReconn : Bool := false  -- close() was called from inside the live reconnect task: it is not cancelled, it ends by itself
   closeCalled : Bool := false
   closeReturned : Bool := false
@@ -112,8 +115,8 @@ def stepCore (s : CS) (e : Ev) : Option CS :=
       guard (s.st ≠ .closed && !s.implPending && s.lastFailed && s.slept)
         { s with tryNo := s.tryNo + 1, implPending := true, lastFailed := false, slept := false }
     else
-      guard (s.st = .disconnected && s.calls > 0 && (s.prev = some .connCall || s.prev = some .reconnCall))
-        { s with connActive := true, tryNo := 1, implPending := true }
+      guard (s.st = .disconnected && s.calls > 0 && (s.prev = some .connCall || s.prev = some .reconnCall || s.abandoning))
+        { s with connActive := true, tryNo := 1, implPending := true, abandoning := false }
   | .implFail => guard s.implPending { s with implPending := false, lastFailed := true, slept := false }
   | .implOk c =>
     guard (s.implPending && c = s.nextConn)
@@ -162,13 +165,20 @@ def stepCore (s : CS) (e : Ev) : Option CS :=
   | .closeCall => some { s with closeCalled := true }
   | .closeAbort => guard s.closeCalled s
   | .connCallInRecv => guard s.recv.isSome s
+  -- nobody reads from the link: that is a fault of it (it is shut, DISCONNECTED is reported, and the call goes on to connect)
+  | .abandon c => guard (s.st = .connected && s.recv.isNone && s.conn = some c && !s.connActive && s.calls > 0)
+      { s with faults := s.faults + 1, faulted := c :: s.faulted, abandoning := true }
+  | .connCancel =>
+    guard (s.calls > 0 && s.connActive && s.st ≠ .closed)
+      { s with calls := s.calls - 1, connActive := false, tryNo := 0, okConn := none, lastFailed := false, slept := false, implPending := false }
   -- one reconnect task serves all fault reports: a new one is only started when none is alive
   | .reconnStart => guard (s.reconn = 0 && s.faults > 0) { s with reconn := 1, reconnSlept := false, reconnCalled := false }
   -- … it waits at least as long as the first retry of connect() does …
   | .reconnSleep ms => guard (s.reconn = 1 && !s.reconnSlept && 500 ≤ ms) { s with reconnSlept := true }
-  -- … and only then calls connect(), once …
-  | .reconnCall => guard (s.reconn = 1 && s.reconnSlept && !s.reconnCalled) { s with calls := s.calls + 1, reconnCalled := true }
-  -- … and ends when that call returns, or when close() cancels it
+  -- … and only then calls connect(); every further call (connect() returned at once because another call held the lock, and the
+  -- client is still DISCONNECTED) needs a wait of its own …
+  | .reconnCall => guard (s.reconn = 1 && s.reconnSlept) { s with calls := s.calls + 1, reconnCalled := true, reconnSlept := false }
+  -- … and ends when such a call returns, or when close() cancels it
   | .reconnEnd => guard (s.reconn = 1 && ((s.reconnCalled && s.prev = some .connReturn) || s.st = .closed)) { s with reconn := 0 }
   | .closeCallInRecv => guard s.recv.isSome { s with closeCalled := true, closeFromRecv := true }
   | .closeCallInReconn => guard (s.reconn = 1) { s with closeCalled := true, closeFromReconn := true }
